@@ -419,6 +419,17 @@ func (g *fgen) bindParams() {
 		g.declare(n, srt)
 		g.fact("true", fmt.Sprintf("(and (< 0 %s) (<= %s %s))", n, n, st.alloc))
 		g.vals[fv] = val{n, fv.Type(), srt}
+		// the cell of a captured variable belongs to the enclosing function: callees
+		// other than sibling closures cannot write it (assumption, listed)
+		if pt, ok := fv.Type().Underlying().(*types.Pointer); ok {
+			l := g.ptrLoc(n, pt.Elem())
+			if _, isArr := g.wholeArray(l); !isArr {
+				var keys []string
+				g.leafKeysOf(l, l.path, l.typ, &keys)
+				g.stackLocals = append(g.stackLocals, stackLocal{ref: n, keys: keys, captured: true})
+				g.assum["captured variables of "+g.key+" are not written by callees other than closures"] = true
+			}
+		}
 	}
 }
 
@@ -430,6 +441,7 @@ func (g *fgen) run() {
 	g.bindParams()
 	g.findLoops()
 	g.setupGinvs()
+	g.setupGuards()
 	g.assumeGinvs(g.entry)
 	// requires
 	env := g.clauseEnv(g.entry, nil, nil)
@@ -643,7 +655,9 @@ func (g *fgen) block(b *ssa.BasicBlock) {
 		{
 			lm := *li.mods
 			lm.allocs = true
+			before := st.clone()
 			g.applyModset(&lm, st, fmt.Sprintf("loop %d", li.ordinal))
+			g.restoreLoopLocals(li, before, st)
 		}
 		li.phiVals = map[*ssa.Phi]string{}
 		for _, phi := range phis {
@@ -808,6 +822,7 @@ func (g *fgen) instr(in ssa.Instruction, st *state) {
 	case *ssa.MakeClosure:
 		r := g.allocRef(st)
 		g.define(x, r)
+		g.closurePre(x, st)
 	case *ssa.MapUpdate:
 		g.mapUpdate(x, st)
 	case *ssa.Phi:
@@ -820,6 +835,7 @@ func (g *fgen) instr(in ssa.Instruction, st *state) {
 			g.unsupported("store through %s", x.Addr.Name())
 			return
 		}
+		g.guardCheck(st, l, true, x.Pos())
 		g.store(st, l, g.get(x.Val).t)
 	case *ssa.TypeAssert:
 		g.typeAssert(x, st)
@@ -938,9 +954,154 @@ func (g *fgen) alloc(x *ssa.Alloc, st *state) {
 	}
 }
 
+// restoreLoopLocals: at a loop head everything the loop may write is havocked; the cells
+// of non-escaping locals and captured variables that the loop body does not store to
+// itself (only callees could, and they cannot) keep their values.
+func (g *fgen) restoreLoopLocals(li *loopInfo, before, st *state) {
+	if len(g.stackLocals) == 0 {
+		return
+	}
+	direct := map[string]bool{}
+	closureCall := false
+	kg := g.w.keygen()
+	ms := newModset()
+	for b := range li.body {
+		for _, in := range b.Instrs {
+			switch x := in.(type) {
+			case *ssa.Store, *ssa.MapUpdate:
+				g.w.instrMods(kg, in, ms)
+			case ssa.CallInstruction:
+				c := x.Common()
+				if !c.IsInvoke() {
+					if _, isB := c.Value.(*ssa.Builtin); isB {
+						// append/copy write element heaps, not variable cells
+						continue
+					}
+					callee := c.StaticCallee()
+					if callee == nil || callee.Parent() != nil {
+						closureCall = true
+					}
+				}
+			}
+		}
+	}
+	for k := range ms.any {
+		direct[k] = true
+	}
+	for k := range ms.fresh {
+		direct[k] = true
+	}
+	if ms.all {
+		return
+	}
+	for _, sl := range g.stackLocals {
+		if sl.captured && closureCall {
+			continue
+		}
+		for _, k := range sl.keys {
+			if direct[k] || strings.HasPrefix(k, "G_") {
+				continue
+			}
+			old := g.read(before, k)
+			cur := g.read(st, k)
+			if old == cur {
+				continue
+			}
+			n := g.fresh("H_"+k, g.heapSort[k])
+			g.fact("true", fmt.Sprintf("(= %s (store %s %s (select %s %s)))", n, cur, sl.ref, old, sl.ref))
+			st.heap[k] = n
+		}
+	}
+}
+
+// closurePre: when a closure with a contract is created, the preconditions that speak
+// only about captured state (not about the closure's own parameters) must hold.
+func (g *fgen) closurePre(x *ssa.MakeClosure, st *state) {
+	fn, ok := x.Fn.(*ssa.Function)
+	if !ok {
+		return
+	}
+	fc := g.w.contractFor(fn)
+	if fc == nil {
+		return
+	}
+	vars := map[string]val{}
+	for i, fv := range fn.FreeVars {
+		if i >= len(x.Bindings) {
+			break
+		}
+		b := x.Bindings[i]
+		pt, isP := fv.Type().Underlying().(*types.Pointer)
+		if !isP {
+			vars[fv.Name()] = g.get(b)
+			continue
+		}
+		l := g.locOf(b)
+		if l == nil {
+			continue
+		}
+		vars[fv.Name()] = val{g.load(st, l), pt.Elem(), g.sortOf(pt.Elem())}
+	}
+	nq := new(int)
+	*nq = 5000 * (len(g.obls) + 1)
+	env := &cenv{g: g, st: st, old: st, vars: vars, pkg: g.w.allTPkg[fc.pkgPath], nq: nq}
+	pnames := map[string]bool{}
+	for _, p := range fc.params {
+		pnames[p.name] = true
+	}
+	for _, c := range fc.requires {
+		if mentionsAny(c.e, pnames) {
+			continue
+		}
+		t, err := env.safeBool(c)
+		if err != nil {
+			panic(transErr(err.Error()))
+		}
+		g.oblige("closure-pre", fn.Name()+"/"+strings.TrimPrefix(c.label, "pre:"), t, x.Pos())
+		g.obls[len(g.obls)-1].src = "closure " + fn.Name() + " requires " + c.src
+	}
+}
+
+func mentionsAny(x cexpr, names map[string]bool) bool {
+	switch x := x.(type) {
+	case *cIdent:
+		return names[x.name]
+	case *cUnary:
+		return mentionsAny(x.x, names)
+	case *cBinary:
+		return mentionsAny(x.x, names) || mentionsAny(x.y, names)
+	case *cCall:
+		for _, a := range x.args {
+			if mentionsAny(a, names) {
+				return true
+			}
+		}
+		return false
+	case *cSel:
+		return mentionsAny(x.x, names)
+	case *cIndex:
+		return mentionsAny(x.x, names) || mentionsAny(x.idx, names)
+	case *cSlice:
+		return mentionsAny(x.x, names) || (x.lo != nil && mentionsAny(x.lo, names)) || (x.hi != nil && mentionsAny(x.hi, names))
+	case *cQuant:
+		inner := map[string]bool{}
+		for k, v := range names {
+			inner[k] = v
+		}
+		for _, v := range x.vars {
+			delete(inner, v.name)
+		}
+		return mentionsAny(x.body, inner)
+	case *cCond:
+		return mentionsAny(x.c, names) || mentionsAny(x.a, names) || mentionsAny(x.b, names)
+	}
+	return false
+}
+
 type stackLocal struct {
-	ref  string
-	keys []string
+	ref      string
+	keys     []string
+	captured bool // a captured variable's cell (closures may write it)
 }
 
 // allocEscapes: is the address of the local used for anything but direct loads, stores
@@ -982,8 +1143,11 @@ func allocEscapes(a *ssa.Alloc) bool {
 
 // restoreStackLocals: after a call's frame has been applied, the cells of non-escaping
 // locals still hold what they held before the call.
-func (g *fgen) restoreStackLocals(before, st *state) {
+func (g *fgen) restoreStackLocals(before, st *state, calleeIsClosure bool) {
 	for _, sl := range g.stackLocals {
+		if sl.captured && calleeIsClosure {
+			continue
+		}
 		for _, k := range sl.keys {
 			if strings.HasPrefix(k, "G_") {
 				continue
@@ -1243,6 +1407,7 @@ func (g *fgen) unop(x *ssa.UnOp, st *state) {
 			g.defineUnknown(x, st)
 			return
 		}
+		g.guardCheck(st, l, false, x.Pos())
 		v := g.define(x, g.load(st, l))
 		g.fact("true", g.wf(v.t, x.Type(), st.alloc, 0))
 		if gl, ok := x.X.(*ssa.Global); ok && v.sort == "Iface" && types.Identical(x.Type(), types.Universe.Lookup("error").Type()) {
@@ -1315,8 +1480,8 @@ func (g *fgen) convert(x *ssa.Convert, st *state) {
 			g.define(x, fmt.Sprintf("((_ to_fp 11 53) RNE %s)", v.t))
 		}
 	case v.sort == "Slice" && g.sortOf(to) == "String":
-		// string(bytes): fresh string with the same length
-		r := g.defineUnknown(x, st)
+		// string(bytes): a deterministic function of the bytes
+		r := g.define(x, g.bytesToString(st, v))
 		g.fact("true", fmt.Sprintf("(= (str.len %s) (s_len %s))", r.t, v.t))
 		g.bytesStringLink(st, v, r.t)
 	case v.sort == "String" && g.sortOf(to) == "Slice":
@@ -1349,6 +1514,19 @@ func (g *fgen) bytesStringLink(st *state, s val, str string) {
 	k := g.registerElemKey(et)
 	h := g.read(st, k)
 	g.emit(fmt.Sprintf("(assert (forall ((i!q Int)) (! (=> (and (<= 0 i!q) (< i!q (s_len %s))) (= (select (select %s (s_arr %s)) (+ (s_off %s) i!q)) (str.to_code (str.at %s i!q)))) :pattern ((str.at %s i!q)))))", s.t, h, s.t, s.t, str, str))
+}
+
+// bytesToString: string(b) as an uninterpreted function of (backing array, off, len), so
+// that converting the same bytes twice (in code and in a contract) yields equal strings.
+func (g *fgen) bytesToString(st *state, s val) string {
+	et := s.typ.Underlying().(*types.Slice).Elem()
+	k := g.registerElemKey(et)
+	h := g.read(st, k)
+	if !g.declared["b2s"] {
+		g.declared["b2s"] = true
+		g.emit("(declare-fun b2s ((Array Int Int) Int Int) String)")
+	}
+	return fmt.Sprintf("(b2s (select %s (s_arr %s)) (s_off %s) (s_len %s))", h, s.t, s.t, s.t)
 }
 
 func floatOfInt(i string) string {
@@ -1401,6 +1579,11 @@ func (g *fgen) mapUpdate(x *ssa.MapUpdate, st *state) {
 		k = val{g.makeIface(st, g.curGuard, k), mt.Key(), "Iface"}
 	}
 	g.oblige("nilmap", g.siteLabel(x.Pos(), "map update"), fmt.Sprintf("(not (= %s 0))", m.t), x.Pos())
+	if u, ok := x.Map.(*ssa.UnOp); ok {
+		if l, ok := g.locs[u.X]; ok {
+			g.guardCheck(st, l, true, x.Pos()) // writing a guarded map needs the write lock
+		}
+	}
 	hk, vk, lk := g.mapKeys(mt)
 	h, vv, l := g.read(st, hk), g.read(st, vk), g.read(st, lk)
 	nl := g.fresh("H_"+lk, g.heapSort[lk])
@@ -1566,6 +1749,12 @@ func (g *fgen) ret(x *ssa.Return, st *state) {
 	for _, c := range fc.ensures {
 		t, err := env.safeBool(c)
 		if err != nil {
+			if strings.Contains(err.Error(), "unknown identifier") {
+				// the clause names a local that is not defined on the way to this return
+				// (an early error return): nothing to check here
+				g.assum["postcondition `"+c.src+"` of "+g.key+" is not checked at `"+g.w.srcText(x.Pos(), 0)+"` (a local it names is not defined there)"] = true
+				continue
+			}
 			panic(transErr(err.Error()))
 		}
 		g.oblige("post", strings.TrimPrefix(c.label, "post:")+"@"+g.w.srcText(x.Pos(), 0), t, x.Pos())
